@@ -61,7 +61,7 @@ package bit
 //@   ensures[reliable_sink_never_fails] w.w.reliable ==> result == nil
 //@   opaque bitOf tok bitsval sbit
 //@   uses tok_from_bitOf bitsval_frame_w sbit_from_bitOf opt.bitview opt.reliable
-//@   timeout 60
+//@   timeout 180
 //@   note the bit relations between u and the bytes written are discharged by bit-vector reasoning
 //@   requires wSane(w) && w.w.n < 72057594037927900 && numBits >= 0 && numBits <= 64
 //@   modifies w.b, w.count, w.w.out, w.w.n
@@ -150,7 +150,7 @@ package bit
 //@ func Reader.ReadBits
 //@   prop C14
 //@   opaque sbit
-//@   timeout 90
+//@   timeout 270
 //@   note bit positions are 64-bit machine integers; the step of the bit loop takes z3 5-12 s
 //@   requires rSane(r) && r.count < 8
 //@   modifies r.b, r.count, r.err, r.buf.index
